@@ -55,6 +55,19 @@ OwnerConsistent == \A l \in Locks : \A a \in Acts : HeldCount(a, l) > 0 => (lock
 LockFreeWhenUnused == Quiescent =>
    \A l \in Locks : ((\A a \in Acts : HeldCount(a, l) = 0) /\ WaitersOf(subs, NLock(l)) = <<>>) => lock[l].owner = 0
 
+\* C11 (configurations with one channel and no queue: messages are numbered by one counter): the buffer of every
+\* subscribed consumer holds exactly the messages put since it subscribed that it has not received yet - a gapless
+\* ascending run that ends with the latest message: nothing is missed, nothing is delivered twice or out of order
+ChannelExact == \A c \in Chans : \A j \in 1..Len(obj.ch[c].bufs) :
+   LET it == obj.ch[c].bufs[j].items IN \A i \in 1..Len(it) : it[i] = cnt.item - Len(it) + i
+\* consumers are registered once
+ChannelConsumersDistinct == \A c \in Chans : \A i, j \in 1..Len(obj.ch[c].bufs) :
+   obj.ch[c].bufs[i].cid = obj.ch[c].bufs[j].cid => i = j
+\* C10 (one queue, no channel): the buffer is the gapless run of the items accepted after the last one handed out
+QueueExact == \A q \in Queues : LET b == obj.q[q].buf IN
+   /\ Len(b) = cnt.item - obj.q[q].got
+   /\ \A i \in 1..Len(b) : b[i] = obj.q[q].got + i
+
 \* C04: when a block has ended every task spawned in it is done
 Contained == \A s \in Scopes : (sc[s].kind # "none" /\ ~sc[s].open) =>
    \A k \in Acts : (IsTask(k) /\ act[k].life # "unborn" /\ task[k].scope = s) =>
